@@ -58,6 +58,16 @@ def deep(n):
     return [deep(i) for i in n] if isinstance(n, (list, tuple)) else n
 
 
+def scribble(n):
+    """overwrite a decoded node in place, recursively"""
+    if isinstance(n, list):
+        for i in range(len(n)):
+            if isinstance(n[i], list):
+                scribble(n[i])
+            else:
+                n[i] = b"\xde\xad"
+
+
 def freeze(n):
     return tuple(freeze(i) for i in n) if isinstance(n, (list, tuple)) else n
 
@@ -122,7 +132,7 @@ def make_fn(tier):
             t2 = restore(snap, logdict=False)
             m2 = dict(model)
             apply_op(t2, m2, op)
-            if t2.root_hash != root and t2.root_hash not in neigh:
+            if t2.root_hash != root and t2.root_hash not in neigh and len(neigh) < (28 if thorough else 10):
                 neigh[t2.root_hash] = (t2, m2)
         honest = {}
         for k in sysm.probes:
@@ -260,6 +270,25 @@ def make_fn(tier):
                 offer(r2, P + P2, "foreign_mixed", m2.get(k, b""))
             if len(o.samples) < 1 and P:
                 o.samples.append(dict(key=k, proof_len=len(P), value=want))
+        # 6b. whatever get_proof hands out belongs to the caller: scribble over it, the trie must be unaffected
+        for k in sysm.probes:
+            try:
+                handed = t.get_proof(k)
+            except Exception:  # noqa
+                continue
+            for node in handed:
+                scribble(node)
+        for k in sysm.probes:
+            o.evals += 1
+            try:
+                got = t.get(k)
+                again = tuple(deep(n) for n in t.get_proof(k))
+            except Exception as e:  # noqa
+                o.viol("C03", "proof_nodes_aliased", f"after modifying nodes returned by get_proof the trie raised {type(e).__name__}", key=k, kind="aliasing")
+                break
+            if got != model.get(k, b"") or again != honest.get(k, again):
+                o.viol("C03", "proof_nodes_aliased", "modifying the node lists returned by get_proof changed what the trie returns", key=k, kind="aliasing")
+                break
         # 7. proofs produced for another key
         for k, P in honest.items():
             kn = mpt.nib(k)
